@@ -391,7 +391,7 @@ class Gen:
             if cell and node[0] == 't':
                 node[1]['s'] = node[1]['s'].replace('|', '/')
             if out and not self.reflow and self.p(0.06) and node[0] in ('t', 'em', 'st', 'code') \
-                    and out[-1][0] in ('t', 'em', 'st', 'code'):
+                    and out[-1][0] in ('t', 'em', 'st', 'code') and not (node[0] == out[-1][0] == 'code'):
                 node[1]['glue'] = True
             out.append(node)
             if nobreak in (False, 'setext') and i < n - 1 and self.p(0.22 if not self.reflow else 0.1):
@@ -574,8 +574,8 @@ class Gen:
                                  or k == 'q' and prev == 'q'):
                     gap = 1         # (two quotes without a blank line between them are one quote)
             b[1]['gap'] = gap
-            if first and parent == 'li' or self.normal and prev in ('ul', 'ol'):
-                self._unindent_first(b)
+            if first and parent == 'li' or (self.normal or self.reflow) and prev in ('ul', 'ol'):
+                self._unindent_first(b)     # (an indented block after a list would join its last item)
             out.append(b)
             prev = k
         return out
@@ -930,8 +930,10 @@ def enforce_domain(tree, normal=False):
             for i, b in enumerate(kids):
                 if i and b[1].get('gap', 0) == 0 and reflow and kids[i - 1][0] in ('html', 'q', 'ul', 'ol'):
                     b[1]['gap'] = 1
-                if i and reflow and b[0] == 'ic' and kids[i - 1][0] in ('ul', 'ol'):
-                    ok[0] = False
+                if i and reflow and kids[i - 1][0] in ('ul', 'ol'):
+                    if b[0] == 'ic':
+                        ok[0] = False
+                    unindent_first(b, False)
                 if i and b[1].get('gap', 0) == 0:
                     ls = s_block(b)
                     if normal or ls and ls[0][0].startswith('    ') or not may_follow_directly(b) \
